@@ -260,35 +260,107 @@ type caseID struct {
 }
 
 // restart boots the node on the image of cut c / WAL variant and judges it. Returns (signature suffix -> description).
-func restart(pr *preRun, c cut, tail string, wal []byte, env string) map[string]string {
-	out := map[string]string{}
-	rec2 := &consensus.VerifRecorder{Off: true}
-	db2 := consensus.VerifRestoreDB(pr.ops, c.idx, rec2)
-	dir := tmpDir()
-	defer os.RemoveAll(dir)
-	n, err := consensus.VerifBootFull(consensus.VerifFullConfig{Key: valKey, Funded: []common.Address{userAddr}, Archive: pr.mode == "flush", DB: db2, WalDir: dir, WalImage: wal, Rec: rec2})
-	if n != nil {
-		defer n.StopFull()
+// facts is what was durable / public when the process died (accumulated over all earlier lives).
+type facts struct {
+	published   []consensus.VerifSignRecord // own signed messages already handed to the node's own state
+	committed   map[uint64]types.BlockID    // heights whose block was saved and whose #ENDHEIGHT was durable
+	savedBlocks map[uint64]common.Hash      // blocks saved before the crash
+	maxState    uint64                      // highest height whose consensus-state save was durable
+}
+
+func factsAt(pr *preRun, c cut) *facts {
+	f := &facts{committed: map[uint64]types.BlockID{}, savedBlocks: map[uint64]common.Hash{}}
+	for i, s1 := range pr.signed {
+		if pi, pub := pr.published[i]; pub && pi <= c.idx {
+			f.published = append(f.published, s1)
+		}
 	}
-	if err != nil {
-		out["R1"] = "the node cannot be started on the surviving files without manual repair: " + firstLine(err.Error())
-		return out
-	}
-	// what was durable before the cut
-	var maxSaved, maxState, maxCommitted uint64
 	for h, i := range pr.saveBlock {
-		if i < c.idx && h > maxSaved {
-			maxSaved = h
+		if i < c.idx {
+			f.savedBlocks[h] = pr.blocks[h]
 		}
 	}
 	for h, i := range pr.stateSave {
-		if i < c.idx && h > maxState {
-			maxState = h
+		if i < c.idx && h > f.maxState {
+			f.maxState = h
 		}
 	}
 	for h, i := range pr.endHeight {
-		if i < c.idx && pr.saveBlock[h] < c.idx && h > maxCommitted {
-			maxCommitted = h
+		if i < c.idx && pr.saveBlock[h] < c.idx {
+			f.committed[h] = pr.blockIDs[h]
+		}
+	}
+	return f
+}
+
+// life2 is the recording of a restarted node's own life (for second-level crashes).
+type life2 struct {
+	ops      []consensus.VerifOp
+	cuts     []cut
+	signed   []consensus.VerifSignRecord
+	pubAt    map[int]int // signature index -> number of ops recorded when it was published
+	savedAt  []int       // per n.Full.Saved entry: op count when SaveBlock was called
+	saved    []consensus.VerifCommitRecord
+	walStart []byte
+}
+
+// restart boots the node on the image (db = base ops, then extra ops) / WAL variant and judges it.
+func restart(mode, wl string, dbOps [][]consensus.VerifOp, wal []byte, env string, f *facts, twin *preRun, record bool) (map[string]string, *life2) {
+	out := map[string]string{}
+	rec2 := &consensus.VerifRecorder{Off: !record}
+	var all []consensus.VerifOp
+	for _, seg := range dbOps {
+		all = append(all, seg...)
+	}
+	db2 := consensus.VerifRestoreDB(all, len(all), rec2)
+	dir := tmpDir()
+	defer os.RemoveAll(dir)
+	var l2 *life2
+	var nptr *consensus.VerifNode
+	if record {
+		l2 = &life2{pubAt: map[int]int{}, walStart: wal}
+		walPath := dir + "/cs.wal/wal"
+		rec2.OnCut = func(idx int, op *consensus.VerifOp) {
+			var synced, tail []byte
+			if nptr != nil && nptr.Full != nil && nptr.Full.WAL != nil {
+				synced = lastSyncedImage(rec2.Ops[:idx], wal)
+				tail = nptr.Full.WAL.FileWithTail()
+			} else {
+				b, err := os.ReadFile(walPath)
+				if err != nil {
+					b = wal
+				}
+				synced, tail = b, b
+			}
+			h := uint64(0)
+			if nptr != nil && nptr.CS != nil {
+				h = nptr.CS.Height
+			}
+			l2.cuts = append(l2.cuts, cut{idx: idx, walSynced: synced, walTail: tail, height: h})
+		}
+	}
+	n, err := consensus.VerifBootFull(consensus.VerifFullConfig{Key: valKey, Funded: []common.Address{userAddr}, Archive: mode == "flush", DB: db2, WalDir: dir, WalImage: wal, Rec: rec2})
+	if n != nil {
+		defer n.StopFull()
+	}
+	nptr = n
+	if err != nil {
+		out["R1"] = "the node cannot be started on the surviving files without manual repair: " + firstLine(err.Error())
+		return out, nil
+	}
+	if record {
+		n.OnOwnLogged = func(nn *consensus.VerifNode, msg consensus.Message) {
+			if i := matchSigned(nn.Signed, msg); i >= 0 {
+				if _, ok := l2.pubAt[i]; !ok {
+					l2.pubAt[i] = len(rec2.Ops)
+				}
+			}
+		}
+	}
+	var maxSaved uint64
+	for h := range f.savedBlocks {
+		if h > maxSaved {
+			maxSaved = h
 		}
 	}
 	// R2: one chain prefix, a prefix of what had been committed
@@ -299,12 +371,12 @@ func restart(pr *preRun, c cut, tail string, wal []byte, env string) map[string]
 	}
 	for h := uint64(1); h <= head && h <= maxSaved; h++ {
 		b := n.Full.BC.GetBlockByHeight(h)
-		if b == nil || b.Hash() != pr.blocks[h] {
+		if want, ok := f.savedBlocks[h]; ok && (b == nil || b.Hash() != want) {
 			out["R2:block-replaced"] = fmt.Sprintf("block at height %d is not the block committed before the crash", h)
 		}
 	}
-	if pr.mode == "flush" && head < maxState {
-		out["R2:committed-block-lost"] = fmt.Sprintf("state is flushed every block and the state of height %d had been saved, but the node restarts at height %d", maxState, head)
+	if mode == "flush" && head < f.maxState {
+		out["R2:committed-block-lost"] = fmt.Sprintf("state is flushed every block and the state of height %d had been saved, but the node restarts at height %d", f.maxState, head)
 	}
 	// R3: resumes
 	startH := csH
@@ -316,7 +388,7 @@ func restart(pr *preRun, c cut, tail string, wal []byte, env string) map[string]
 			first = false
 			return // the restarted node's pool is still empty when it works on its first height
 		}
-		offer(n, pr.wl, next)
+		offer(n, wl, next)
 	})
 	if n.Failed != nil {
 		out["R3:halted"] = "after the restart the consensus handler panics (CONSENSUS FAILURE): " + firstLine(fmt.Sprint(n.Failed))
@@ -325,11 +397,7 @@ func restart(pr *preRun, c cut, tail string, wal []byte, env string) map[string]
 	}
 	// R4: no signature conflicting with one published before the crash
 	for _, s2 := range n.Signed {
-		for i, s1 := range pr.signed {
-			pi, pub := pr.published[i]
-			if !pub || pi > c.idx {
-				continue // not yet handed to the node's own state (hence to gossip) when the process died
-			}
+		for _, s1 := range f.published {
 			if s1.Kind == s2.Kind && s1.Type == s2.Type && s1.Height == s2.Height && s1.Round == s2.Round && !s1.BlockID.Equal(s2.BlockID) {
 				k := "proposal"
 				if s1.Kind == "vote" {
@@ -341,16 +409,14 @@ func restart(pr *preRun, c cut, tail string, wal []byte, env string) map[string]
 	}
 	// R5: no committed height decided differently
 	for _, s := range n.Full.Saved {
-		if s.Height <= maxCommitted {
-			if id, ok := pr.blockIDs[s.Height]; ok && !id.Equal(s.BlockID) {
-				out["R5:recommit-different"] = fmt.Sprintf("height %d had been committed before the crash and is committed again with a different block", s.Height)
-			}
+		if id, ok := f.committed[s.Height]; ok && !id.Equal(s.BlockID) {
+			out["R5:recommit-different"] = fmt.Sprintf("height %d had been committed before the crash and is committed again with a different block", s.Height)
 		}
 	}
 	// R6: flush-every-block mode loses no committed block and continues like the uncrashed twin. Which
 	// block a transaction lands in depends on when the environment offers it, so the comparison is on
 	// the concatenated transaction sequence of the chain: one must be a prefix of the other.
-	if pr.mode == "flush" && n.Failed == nil && ok && env == "reoffer" {
+	if mode == "flush" && n.Failed == nil && ok && env == "reoffer" && twin != nil {
 		var got, want []common.Hash
 		for h := uint64(1); h <= n.State().LastBlockHeight; h++ {
 			if b := n.Full.BC.GetBlockByHeight(h); b != nil {
@@ -359,8 +425,8 @@ func restart(pr *preRun, c cut, tail string, wal []byte, env string) map[string]
 				}
 			}
 		}
-		for h := uint64(1); h <= pr.final; h++ {
-			want = append(want, pr.txs[h]...)
+		for h := uint64(1); h <= twin.final; h++ {
+			want = append(want, twin.txs[h]...)
 		}
 		m := len(got)
 		if len(want) < m {
@@ -370,7 +436,103 @@ func restart(pr *preRun, c cut, tail string, wal []byte, env string) map[string]
 			out["R6:twin-differs"] = fmt.Sprintf("the restarted node's chain carries the transaction sequence %x, the twin that never crashed %x", got, want)
 		}
 	}
-	return out
+	if record {
+		rec2.OnCut = nil
+		l2.ops = rec2.Ops
+		l2.signed = n.Signed
+		l2.saved = n.Full.Saved
+	}
+	return out, l2
+}
+
+// lastSyncedImage is the WAL file content as of the last completed sync among ops (or the initial image).
+func lastSyncedImage(ops []consensus.VerifOp, initial []byte) []byte {
+	img := initial
+	for _, o := range ops {
+		if o.Dev == "wal" && o.FileAfter != nil {
+			img = o.FileAfter
+		}
+	}
+	return img
+}
+
+func matchSigned(signed []consensus.VerifSignRecord, msg consensus.Message) int {
+	var kind string
+	var h uint64
+	var rd uint32
+	var t int32
+	var id types.BlockID
+	switch m := msg.(type) {
+	case *consensus.ProposalMessage:
+		kind, h, rd, id = "proposal", m.Proposal.Height, m.Proposal.Round, m.Proposal.POLBlockID
+	case *consensus.VoteMessage:
+		kind, h, rd, t, id = "vote", m.Vote.Height, m.Vote.Round, int32(m.Vote.Type), m.Vote.BlockID
+	default:
+		return -1
+	}
+	for i := len(signed) - 1; i >= 0; i-- {
+		sr := signed[i]
+		if sr.Kind == kind && sr.Height == h && sr.Round == rd && (kind == "proposal" || sr.Type == t) && sr.BlockID.Equal(id) {
+			return i
+		}
+	}
+	return -1
+}
+
+// factsAfter extends f with what the second life had made durable / public before its cut c2.
+func factsAfter(f *facts, l2 *life2, c2 cut) *facts {
+	g := &facts{committed: map[uint64]types.BlockID{}, savedBlocks: map[uint64]common.Hash{}, maxState: f.maxState}
+	g.published = append(g.published, f.published...)
+	for h, v := range f.committed {
+		g.committed[h] = v
+	}
+	for h, v := range f.savedBlocks {
+		g.savedBlocks[h] = v
+	}
+	for i, s := range l2.signed {
+		if at, ok := l2.pubAt[i]; ok && at <= c2.idx {
+			g.published = append(g.published, s)
+		}
+	}
+	// blocks saved / committed in the second life before c2: follow the durable operations
+	var savedHeights []uint64
+	si := 0
+	for i := 0; i < c2.idx && i < len(l2.ops); i++ {
+		op := l2.ops[i]
+		if op.Dev == "db" && op.Label == "block" && si < len(l2.saved) {
+			rec := l2.saved[si]
+			si++
+			// a block re-saved over a different pre-crash block is judged by R2/R5 of the FIRST restart; here
+			// the second life's own saves become facts only when they do not contradict earlier ones
+			if _, had := g.savedBlocks[rec.Height]; !had {
+				g.savedBlocks[rec.Height] = rec.Block.Hash()
+			}
+			savedHeights = append(savedHeights, rec.Height)
+		}
+		if op.Dev == "wal" && op.EndHeight > 0 {
+			h := uint64(op.EndHeight)
+			for k, sh := range savedHeights {
+				if sh == h {
+					if _, had := g.committed[h]; !had {
+						g.committed[h] = l2.saved[k].BlockID
+					}
+				}
+			}
+		}
+		if op.Dev == "db" && op.Label == "cstate" && len(savedHeights) > 0 {
+			if h := savedHeights[len(savedHeights)-1]; h > g.maxState {
+				g.maxState = h
+			}
+		}
+	}
+	return g
+}
+
+func opAt(ops []consensus.VerifOp, i int) *consensus.VerifOp {
+	if i < 0 || i >= len(ops) {
+		return nil
+	}
+	return &ops[i]
 }
 
 func firstLine(s string) string {
@@ -469,7 +631,8 @@ func main() {
 		for _, j := range jobs {
 			if j.pr.mode == cid.Mode && j.pr.wl == cid.WL && j.c.idx-j.pr.start == cid.Cut && j.tail == cid.Tail && j.torn == cid.TornAt && j.env == cid.Env {
 				fmt.Printf("replaying: mode=%s workload=%s cut before durable op #%d (%s | %s) wal tail=%s env=%s\n", cid.Mode, cid.WL, cid.Cut, cid.After, cid.Before, cid.Tail, cid.Env)
-				for k, what := range restart(j.pr, j.c, j.tail, j.wal, j.env) {
+				res, _ := restart(j.pr.mode, j.pr.wl, [][]consensus.VerifOp{j.pr.ops[:j.c.idx]}, j.wal, j.env, factsAt(j.pr, j.c), j.pr, false)
+				for k, what := range res {
 					fmt.Printf("  %s: %s\n", k, what)
 					bad = true
 				}
@@ -501,8 +664,49 @@ func main() {
 		if j.c.idx == j.pr.start {
 			la = "boot"
 		}
-		res := restart(j.pr, j.c, j.tail, j.wal, j.env)
+		level2 := r.Thorough() && j.tail == "synced" && j.env == "reoffer"
+		f1 := factsAt(j.pr, j.c)
+		res, l2 := restart(j.pr.mode, j.pr.wl, [][]consensus.VerifOp{j.pr.ops[:j.c.idx]}, j.wal, j.env, f1, j.pr, level2)
 		r.Add("evaluations", 1)
+		if level2 && l2 != nil && len(res) == 0 {
+			// second crash: every cut of the restarted node's own life (boot, WAL catch-up, two more heights)
+			for _, c2 := range l2.cuts {
+				imgs := map[string][]byte{"synced": c2.walSynced}
+				if len(c2.walTail) > len(c2.walSynced) {
+					imgs["whole"] = c2.walTail
+				}
+				for t2, img := range imgs {
+					f2 := factsAfter(f1, l2, c2)
+					res2, _ := restart(j.pr.mode, j.pr.wl, [][]consensus.VerifOp{j.pr.ops[:j.c.idx], l2.ops[:c2.idx]}, img, "reoffer", f2, nil, false)
+					r.Add("evaluations", 1)
+					r.Add("second_level_restarts", 1)
+					r.Distinct("distinct_nontrivial", fmt.Sprintf("L2|%s|%s|%d|%d|%s", j.pr.mode, j.pr.wl, j.c.idx, c2.idx, t2))
+					var a2, b2 *consensus.VerifOp
+					if c2.idx > 0 {
+						a2 = &l2.ops[c2.idx-1]
+					}
+					if c2.idx < len(l2.ops) {
+						b2 = &l2.ops[c2.idx]
+					}
+					for k, what := range res2 {
+						// a crash window is identified by the durable operations around the cut, in whichever life
+						hc2 := ">1"
+						if c2.height <= 1 {
+							hc2 = "1"
+						}
+						la2 := shortLabel(a2)
+						if c2.idx == 0 {
+							la2 = "restart"
+						}
+						sig := fmt.Sprintf("C05|mode=%s|height=%s|after=%s|before=%s|oracle=%s", j.pr.mode, hc2, la2, shortLabel(b2), k)
+						r.Violation(sig, what+fmt.Sprintf(" [second crash; wal tail: %s]", t2), map[string]interface{}{"mode": j.pr.mode, "workload": j.pr.wl, "first_cut": j.c.idx - j.pr.start, "second_cut": c2.idx, "tail": t2})
+					}
+					if len(res2) == 0 {
+						r.Add("clean_second_level_restarts", 1)
+					}
+				}
+			}
+		}
 		mu.Lock()
 		windows[fmt.Sprintf("%s|%s|%s|%s|%s", j.pr.mode, hclass, la, lb, j.tail)] = true
 		mu.Unlock()
